@@ -386,16 +386,33 @@ class Interp:
                 self.ops_seen.append(f"CREATE({p.name}) .. CLOSE")
                 self.step(st, f"CREATE({p.name})")
                 st.fs[p.name] = ("partial", st.new_version)
-                # body: dumps into the handle do not complete the file
+                # body: dumps into the handle do not complete the file; any other
+                # file operation in the body runs while the handle is still open
+                # (its content is partial until the with-block closes it)
+                def is_dump(b):
+                    if not (isinstance(b, ast.Expr) and isinstance(b.value, ast.Call)):
+                        return False
+                    n = b.value
+                    nm = call_name(n) or ""
+                    return nm.endswith(".dump") and len(n.args) >= 2 and isinstance(n.args[1], ast.Name) and n.args[1].id == fvar
+
                 for b in s.body:
                     for n in ast.walk(b):
-                        if isinstance(n, ast.Call) and self.is_fs_call(n):
-                            nm = call_name(n) or ""
-                            if not (nm.endswith(".dump") and len(n.args) >= 2 and isinstance(n.args[1], ast.Name) and n.args[1].id == fvar):
-                                raise AnalysisError(f"{self.fi.qual}: unsupported file operation inside a write-with: `{src(n)}`")
-                self.step(st, f"WRITE+CLOSE({p.name})")
-                st.fs[p.name] = ("complete", st.new_version)
-                return [(st, None)]
+                        if isinstance(n, ast.Call) and (call_name(n) or "").endswith((".dump", ".write")) and not is_dump(b):
+                            raise AnalysisError(f"{self.fi.qual}: unsupported write inside a write-with: `{src(n)}`")
+                marker = f"open:{p.name}"
+                st.fs[p.name] = ("partial", st.new_version, marker)
+                rest = [b for b in s.body if not is_dump(b)]
+                outs = self.block(rest, st) if rest else [(st, None)]
+                res = []
+                for s1, sig in outs:
+                    if sig is None or sig[0] in ("return", "break", "continue"):
+                        self.step(s1, f"WRITE+CLOSE({p.name})")
+                        for k, v in list(s1.fs.items()):
+                            if len(v) == 3 and v[2] == marker:
+                                s1.fs[k] = ("complete", v[1])
+                    res.append((s1, sig))
+                return res
             # read mode: a load of the handle inside the body is a LOAD of the path
             loads = [n for b in s.body for n in ast.walk(b) if isinstance(n, ast.Call) and (call_name(n) or "").endswith(".load") and n.args and isinstance(n.args[0], ast.Name) and n.args[0].id == fvar]
             cur = st.get(p.name)
